@@ -8,6 +8,10 @@ PROP = dict(
         # all 2^32 values; -O2 without sanitizers (throughput; memory safety is covered by the asan stage)
         dict(name="c03_sweep32", src="harness/c03_endian.cc", flags=["-fwrapv", "-DC03_SWEEP32"], flavor="o2",
              thorough_only=True, shards_thorough=16, timeout_thorough=1500),
+        # include order: one small probe program per public header H (H is the first include of the TU, then Encoding.hh),
+        # byte layout / load() of all 24 wrappers against struct.pack in the named order (oracle/c03_include_order.py)
+        dict(name="c03_include_order", kind="pydriver", driver="oracle/c03_include_order.py",
+             shards_quick=8, shards_thorough=8, timeout_quick=300, timeout_thorough=600),
     ],
     rule=("exhaustive small scopes: all 24 wrappers {le,be,re} x {u16,s16,u32,s32,u64,s64,float,double} x 19 operations (construct, =, store, "
           "+= -= *= /= %= &= |= ^= <<= >>=, ++x x++ --x x--, copy, store_raw/load_raw) x 3 operand types (same type, int, int64_t/double) "
@@ -20,8 +24,14 @@ PROP = dict(
           "left out by construction and counted under `excluded`. Non-trivial: the value has its top bit set or its byte pattern is not a "
           "palindrome (sign_extend/extNN: top bit of the narrow value set). Distinct = distinct case encodings; inside hot loops the 16-bit "
           "sweep registers each (wrapper, value) once and the 2^24 / 2^32 / pseudo-random sweeps register a 1/64, 1/4096, 1/16 subsample, so the "
-          "distinct count is a lower bound."),
-    assumptions=["little-endian host (the harness observes the host order at run time; big-endian hosts are not exercised)",
+          "distinct count is a lower bound. include_order (own stage): the byte order the templates assume is chosen by the preprocessor "
+          "in Platform.hh, so \"always ... in the named byte order\" is also checked per translation unit: for every public header H of the "
+          "tree (all src/*.hh except the -inl.hh parts) a probe program whose very first include is H, then Encoding.hh, and only then "
+          "standard headers (plus the probe with Encoding.hh alone), compiled at -O0 and -O2; all 24 wrappers x 10-11 boundary bit patterns: "
+          "sizeof, object bytes after construction / assignment / store(), load(), the conversion operator, and load() of memcpy'd bytes "
+          "against struct.pack in the named order (computed in Python)."),
+    assumptions=["include_order: a header that cannot be compiled as the first include of a translation unit is recorded under `excluded`, not judged",
+                 "little-endian host (the harness observes the host order at run time; big-endian hosts are not exercised)",
                  "harness and the wrapper templates instantiated in it are compiled with -fwrapv, so signed wrap-around is the same defined "
                  "operation on both sides",
                  "results of floating-point arithmetic are compared bit-exactly except that any NaN equals any NaN; store/load/assign/copy are "
